@@ -90,7 +90,7 @@ func (C17) Meta() core.Meta {
 
 func (C17) Runs(tier string) uint64 {
 	if tier == "thorough" {
-		return 2000000
+		return 1200000
 	}
 	return 40000
 }
@@ -193,7 +193,7 @@ func (C17) NewPlan(r *core.Rand, tier string, i uint64) interface{} {
 	if den == 0 {
 		den = 200 // quick: a fresh process costs ~0.3 s under the race detector
 		if tier == "thorough" {
-			den = 50
+			den = 100
 		}
 	}
 	p.FreshTwin = r.Chance(1, den)
@@ -766,7 +766,7 @@ func (C17) Exec(pi interface{}) *core.RunResult {
 }
 
 // freshTwinDen: one run in freshTwinDen also computes its reference results in a fresh process
-// (default: 1 in 200 in the quick tier, 1 in 50 in the thorough tier; VERIF_FRESH_TWIN_DEN overrides).
+// (default: 1 in 200 in the quick tier, 1 in 100 in the thorough tier; VERIF_FRESH_TWIN_DEN overrides).
 var freshTwinDen = func() int {
 	if v, err := strconv.Atoi(os.Getenv("VERIF_FRESH_TWIN_DEN")); err == nil && v > 0 {
 		return v
